@@ -169,6 +169,7 @@ func (e *Exec) builtin(s *State, site ssa.Instruction, cc *ssa.CallCommon, res s
 		st := cells(et)
 		n := c.I("(+ %s %s)", sl[2], ad[2])
 		inplace := c.B("(<= %s %s)", n, sl[3])
+		c.caseConds = append(c.caseConds, caseCond{term: inplace, at: len(c.lines), visit: c.cur, lenTerm: sl[2]})
 		// appended elements: a variadic call passes a slice of a small array of
 		// statically known length; those are written cell by cell (no quantifier)
 		staticN := -1
